@@ -144,7 +144,10 @@ def layout_index(layout, f_cur, f_hist, f_pat):
         # what real archives publish next to the three fields (ignored by update_file)
         return ("Canonical-Path: dists/sid/main/binary-amd64/Packages\n" + f_cur + f_hist +
                 "X-Unmerged-SHA1-History:\n 0 0 none\n" + f_pat + "X-Unmerged-SHA1-Patches:\n 0 0 none\n" +
-                "X-Patch-Precedence: merged\n")
+                "X-Patch-Precedence: merged\n" +
+                # real indexes also list the compressed patches; a SHA1 index may carry such a field of the other family
+                ("SHA256-Download:\n " + "0" * 64 + " 1 patch000.gz\n" if f_cur.startswith("SHA1-") else
+                 "SHA1-Download:\n " + "0" * 40 + " 1 patch000.gz\n"))
     if layout == "reordered":
         return f_pat + f_hist + f_cur
     if layout == "two-paragraphs":
